@@ -3,6 +3,8 @@ use std::process::Command;
 use time::OffsetDateTime;
 
 fn main() {
+    // guard name of the verification hooks (src/verif.rs)
+    println!("cargo:rustc-check-cfg=cfg(cicada_verif)");
     match Command::new("git")
         .args(["rev-parse", "--short", "HEAD"])
         .output()
